@@ -170,9 +170,25 @@ def pfe_rule(F, R, tier):
         except NonConst:
             probs.add('shape')
             break
+        # all loop-carried variables advance together (the walk may keep the previous element in a second variable)
+        carried_ = (m.up_vg.loops.get(L) or {}).get('carried', {})
+        cur_ = {}
+        try:
+            for kk, (i0, n0) in carried_.items():
+                cur_[kk] = Form({'acc': 1.0}) if kk == key else ev.ev(i0)
+        except NonConst:
+            probs.add('shape')
+            break
         for i in idxs:
             ev.idx[L] = i
+            for kk in carried_:
+                ev.mu[(L, kk)] = cur_[kk]
             ev.mu[(L, key)] = Form({'acc': 1.0})
+            try:
+                nxt_vals = {kk: (ev.ev(n0) if (n0 is not None and kk != key) else cur_[kk]) for kk, (i0, n0) in carried_.items()}
+            except NonConst:
+                probs.add('shape')
+                break
             for y in subterms(nxt):
                 if y[0] == 'op' and y[1] == 'sqrt':
                     inner = y[2][0]
@@ -187,8 +203,10 @@ def pfe_rule(F, R, tier):
                                         unit = False
                                 except NonConst:
                                     unit = False
+            cur_ = nxt_vals
         ev.idx.pop(L, None)
-        ev.mu.pop((L, key), None)
+        for kk in list(carried_) + [key]:
+            ev.mu.pop((L, kk), None)
         checked += 1
         total = Form()
         for sgm in segs:
